@@ -463,6 +463,15 @@ PROPS["C10"]["text"] += " Variant identifiers with underscores, leading lower ca
 PROPS["C11"]["text"] += " `map` on a field declared after a skipped field (MapSkip): the value obligation (what the functions return is what ends up in the result) now carries this property's label too."
 PROPS["C15"]["text"] += " Three members of which at least two carry the SAME key (an order-preserving source can present that) in all six orders, for Camel, Deny4 and Fns5: same multiset of reports (the value on success is not compared there: the last occurrence wins)."
 
+# after the twelfth batch of seeded changes
+_more("C06", "enum", "containers-enum", "harnesses", ["cont_arrays_n"])
+_more("C13", "enum", "json-documents", "harnesses", ["json_string_values"])
+PROPS["C06"]["text"] += " Fixed-size arrays of arity 0, 1 and 3 over u8 elements, payload lengths 0..=4 (bounded, native; the Verus contract covers every N)."
+PROPS["C13"]["text"] += " Strings and keys whose TEXT looks like another kind of JSON value (`42`, `-0`, `1e3`, `true`, `null`, `[]`, a 100-digit string ...) or needs escaping, at the root, in arrays, as object values and as keys: they stay strings through both routes (bounded, native)."
+PROPS["C14"]["text"] += " QueryParamError quotes a received scalar as written (decimal for every u64 / i64 incl. u64::MAX, 2^63, i64::MIN; booleans; the raw string)."
+PROPS["C16"]["text"] = PROPS["C16"]["text"].replace("84 hand-written derive inputs (10 valid controls, 74 poisoned", "95 hand-written derive inputs (10 valid controls, 85 poisoned")
+PROPS["C16"]["text"] += " Near-miss spellings of the rename_all value (CamelCase, camel_case, CAMEL_CASE, camelcase, Lowercase, LOWERCASE, lowerCase, lower_case) at container and variant level are among the poisoned inputs."
+
 NOT_APPLICABLE = {
     "C20": "HTTP extractors are three-line async compositions of actix-web/axum extractors with deserr::deserialize; neither installed verifier can run or specify the frameworks (futures, pinning, runtime), so every obligation would be an assumed contract on actix/axum with nothing left to prove; the features are off by default and not compiled in the baseline.",
 }
